@@ -266,6 +266,13 @@ def gen_C10(tier, rng):
                 yield (f"kdf.hkdf_extract {d} {hx(rng.rbytes(sl))} {hx(rng.rbytes(il))} {H}", f"hkdf.extract.{d}")
         for wrong in (H - 1, H + 1, 0, 2 * H):
             yield (f"kdf.hkdf_extract {d} {hx(rng.rbytes(7))} {hx(rng.rbytes(9))} {wrong}", f"hkdf.extract.{d}.badlen")
+        # a digest object that is not fresh (data fed, or already finalised) must give the same RFC value, also when the
+        # salt / PRK is longer than a block (the key is then hashed with that very object)
+        for pre in ("-", hx(rng.rbytes(1)), hx(rng.rbytes(B - 1)), hx(rng.rbytes(B + 3)), hx(rng.rbytes(5)) + "!", "00!"):
+            for sl in (0, H, B, B + 1, 2 * B + 5):
+                yield (f"kdf.hkdf_extract_used {d} {pre} {hx(rng.rbytes(sl))} {hx(rng.rbytes(22))} {H}", f"hkdf.extract.used.{d}")
+            for pl in (H, B + 1):
+                yield (f"kdf.hkdf_expand_used {d} {pre} {hx(rng.rbytes(pl))} {hx(rng.rbytes(10))} {2 * H + 1}", f"hkdf.expand.used.{d}")
         Ls = [0, 1, H - 1, H, H + 1, 2 * H - 1, 2 * H, 2 * H + 1, 3 * H, 17 * H + 5, 254 * H, 254 * H + 1, 255 * H - 1, 255 * H,
               255 * H + 1, 256 * H, 256 * H + 1, 300 * H]
         if not quick:
